@@ -232,6 +232,9 @@ func (c *SpecCtx) loadSV(obj, off *Term, T types.Type) SV {
 		// that version was created (same rule as for loads in the code)
 		for i, lf := range lay.Leaves {
 			if lf.K == LObj && !lf.Str && out.L[i].IntConst() == nil {
+				if a := allocOfCell(out.L[i]); a != nil {
+					c.side(Lt(out.L[i], a))
+				}
 				if e, ok := boundFromCell(out.L[i]); ok && e < curEpoch {
 					k := out.L[i].Key()
 					if _, isAlloc := allocEpoch[k]; !isAlloc {
